@@ -274,7 +274,8 @@ def _p7(ctx):
                 '%s reaches dyn Wait::wait and the waiter installed by the futures constructors (%s) has a wait() that unconditionally panics' % (short_fn(r), ','.join(bad)),
                 where=g.where(reaches_wait[0]) if reaches_wait else None, sub='reach')
     # P7c: FutWait::park / notify_all / notify
-    park = ctx.fn1(r'^multiqueue::FutWait::park$')
+    # (read off the graph of fut_wait, which contains the parking code whether or not it is a function of its own)
+    park = ctx.fn1(r'^multiqueue::FutWait::fut_wait$')
     g = ctx.graph(park)
     x = g.x
     pushes = x.ext_calls(r'VecDeque(::<.*>)?::push_(back|front)$')
@@ -294,18 +295,26 @@ def _p7(ctx):
     g = ctx.graph(fw)
     x = g.x
     pushes = set(x.ext_calls(r'VecDeque(::<.*>)?::push_(back|front)$'))
+    # `_0 = true` written in fut_wait itself: the place where it reports "parked"
     trues = []
-    g._fwd_calls = set()
-    _orig, _all = g._const_origins(g.root_inst, 0, set())
-    trues += sorted({x.rep(n_) for (n_, v_) in _orig if str(v_) == '1' and any(m_ in g.live() for m_ in g.members(n_))})
-    ctx.floor('P7d', len(trues), 1, '`true` result of fut_wait')
+    for n in g.nodes:
+        if n.id in g.live() and n.kind == 'block' and n.inst == g.root_inst:
+            for s_ in n.stmts:
+                if s_['k'] == 'assign' and s_['pl']['l'] == 0 and not s_['pl']['p'] and s_['rv']['k'] == 'use' and s_['rv']['op']['k'] == 'const' and str(s_['rv']['op'].get('v')) == '1':
+                    trues.append(x.rep(n.id))
+    trues = sorted(set(trues))
+    if not trues:
+        # the result is not a boolean constant written here (an enum, a flag, a helper's result): the obligation is decided
+        # where it matters, at the poll level (P11c: NotReady only after the task was registered)
+        ctx.add('P7d', 'T-DOM', fw, True, 'fut_wait\'s result is not a boolean constant: "parked only after registration" is decided at the poll level (P11c)', sub='true.delegated')
     for t in trues:
         ok = x.dom(x.expand_sites(pushes), t)
         ctx.add('P7d', 'T-DOM', fw, ok, 'fut_wait reports "parked" only after the task was registered' if ok else
                 'fut_wait can return true (caller returns NotReady) without having registered the task', where=g.where(t), sub='true.bb%d' % g.nodes[t].bb)
+    # (park / spin are checked as functions of their own when they exist; their code is part of fut_wait's graph anyway)
     for nm in (r'^multiqueue::FutWait::fut_wait$', r'^multiqueue::FutWait::park$', r'^multiqueue::FutWait::spin$'):
-        f_ = ctx.fn1(nm)
-        _roles(ctx, ctx.graph(f_), f_, short_fn(f_), 2, 3, 4)
+        for f_ in ctx.F.find_fns(nm):
+            _roles(ctx, ctx.graph(f_), f_, short_fn(f_), 2, 3, 4)
     # no peer-blocking inside fut_wait other than the bounded sleep
     for nm in (r'^multiqueue::FutWait::notify_all$', r'^<multiqueue::FutWait as wait::Wait>::notify$'):
         fn = ctx.fn1(nm)
@@ -367,6 +376,16 @@ def _roles(ctx, g, fn, label, p_seq, p_at, p_wc):
                 nr_ = norm_rel(g, alt)
                 if nr_:
                     comparisons.append(('Lt' if nr_[0] in ('Lt', 'Le') else 'Eq', nr_[1], nr_[2]))
+    # a condition handed to an iterator adaptor (`(0..n).any(|_| check(..))`) is never switched on in this graph: its
+    # comparisons are read off the value the callback returns
+    for n_ in g.nodes:
+        if n_.id in g.live() and n_.call is not None and n_.call.get('closure_insts'):
+            for ci in n_.call['closure_insts']:
+                r_ = g.strip(g.ev_local(ci, 0))
+                for alt in (r_[1] if r_[0] == 'phi' else (r_,)):
+                    nr_ = norm_rel(g, alt)
+                    if nr_:
+                        comparisons.append(('Lt' if nr_[0] in ('Lt', 'Le') else 'Eq', nr_[1], nr_[2]))
     wc0 = False
     seq_at = False
     bad = []
